@@ -6,6 +6,7 @@ import (
 	"os"
 	"path/filepath"
 	"sort"
+	"strings"
 	"testing"
 	"time"
 
@@ -31,7 +32,8 @@ type C12Entry struct {
 }
 
 type C12Scenario struct {
-	Mode    string        `json:"mode"` // table | repeat
+	Mode    string        `json:"mode"`          // table | table-push | repeat
+	Arr     string        `json:"arr,omitempty"` // table-push: arrangement (both ends real)
 	Opts    []string      `json:"opts"`
 	Entries []C12Entry    `json:"entries,omitempty"`
 	Sync    *SyncScenario `json:"sync,omitempty"`  // repeat mode
@@ -51,7 +53,7 @@ var c12OptCombos = [][]string{
 
 func (c12) Generate(seed uint64, tier string, index int) any {
 	g := NewGen(kernel.Derive(seed, "workload"), tier == "thorough")
-	if index%4 == 3 {
+	if index%5 == 3 {
 		// repeat-sync idempotence with real sender and real receiver
 		opts := [][]string{{"-rt"}, {"-a"}, {"-rtc"}, {"-rlt"}, {"-rtp"}}[g.R.Intn(5)]
 		to := TreeOpts{MaxEntries: 10, ByteBudget: 200 << 10, PlainNames: g.R.Bool(), Symlinks: true}
@@ -68,7 +70,14 @@ func (c12) Generate(seed uint64, tier string, index int) any {
 		}
 		return &C12Scenario{Mode: "repeat", Opts: opts, Sync: &sc, Touch: touch, Tr: sc.Tr}
 	}
-	sc := &C12Scenario{Mode: "table", Opts: c12OptCombos[index%len(c12OptCombos)]}
+	// every fifth run: the same table with two real ends and the real SERVER (or
+	// the local copy's server half) as the receiver, judged by content
+	sc := &C12Scenario{Mode: "table", Opts: c12OptCombos[(index/5*3+index%5)%len(c12OptCombos)]}
+	if index%5 == 4 {
+		sc.Mode = "table-push"
+		sc.Opts = c12OptCombos[(index/5)%len(c12OptCombos)]
+		sc.Arr = []string{"A2", "A3s", "A4", "A1"}[g.R.Intn(4)]
+	}
 	n := 0
 	// the complete decision table for this option combination
 	for _, dst := range []string{"missing", "same", "diffsize", "diffcontent"} {
@@ -111,6 +120,10 @@ func (c12) Run(t *testing.T, scenario any, job *Job, res *Result) {
 	sc := scenario.(*C12Scenario)
 	if sc.Mode == "repeat" {
 		c12Repeat(t, sc, job, res)
+		return
+	}
+	if sc.Mode == "table-push" {
+		c12TablePush(t, sc, job, res)
 		return
 	}
 	lay := NewLayout(job.Scratch)
@@ -268,6 +281,104 @@ func (c12) Run(t *testing.T, scenario any, job *Job, res *Result) {
 	res.Probe("requests", len(sr.Requests))
 	res.NonTrivial = len(expect) >= 10
 	res.Sample = map[string]any{"mode": "table", "opts": sc.Opts, "entries": len(expect), "requested": len(sr.Requests)}
+}
+
+// c12TablePush runs the decision table between two real ends in a given
+// arrangement and judges it by content: a file the rule says must be
+// transferred holds the source bytes afterwards, any other keeps its own.
+func c12TablePush(t *testing.T, sc *C12Scenario, job *Job, res *Result) {
+	lay := NewLayout(job.Scratch)
+	o := model.ParseOpts(sc.Opts)
+	ss := SyncScenario{Arr: sc.Arr, Opts: sc.Opts, Sources: []SrcArg{{Path: "", Slash: true}}, Tr: sc.Tr}
+	switch sc.Arr {
+	case "A1", "A2", "A3p", "A3s", "A4":
+	default:
+		res.Invalid = "arrangement"
+		return
+	}
+	seen := map[string]bool{}
+	for i := range sc.Entries {
+		e := &sc.Entries[i]
+		if e.Name == "" || seen[e.Name] || filepath.Base(e.Name) != e.Name || e.Size < 0 || e.Size > 1<<20 {
+			res.Invalid = "entry"
+			return
+		}
+		seen[e.Name] = true
+		ss.Src.Entries = append(ss.Src.Entries, fstree.Entry{Path: fstree.Name(e.Name), Type: "f", Perm: 0o644, Mtime: e.Mtime, Content: &fstree.Content{Class: "random", Seed: e.Seed, Size: e.Size}})
+		d := fstree.Entry{Path: fstree.Name(e.Name), Type: "f", Perm: 0o644, Mtime: e.Mtime + e.DeltaSec, MtimeNs: e.DstNs}
+		switch e.Dst {
+		case "missing":
+			continue
+		case "same":
+			d.Content = &fstree.Content{Class: "random", Seed: e.Seed, Size: e.Size}
+		case "diffsize":
+			d.Content = &fstree.Content{Class: "random", Seed: e.Seed, Size: e.Size + 1}
+		case "diffcontent":
+			d.Content = &fstree.Content{Class: "random", Seed: e.Seed ^ 0x77, Size: e.Size}
+		case "emptydir":
+			d = fstree.Entry{Path: fstree.Name(e.Name), Type: "d", Perm: 0o755, Mtime: 1_300_000_000}
+		case "symlink":
+			d = fstree.Entry{Path: fstree.Name(e.Name), Type: "l", Perm: 0o777, Mtime: 1_300_000_000, Target: "nowhere"}
+		default:
+			res.Invalid = "dst kind"
+			return
+		}
+		ss.Dst.Entries = append(ss.Dst.Entries, d)
+	}
+	out, err := semRun(t, &ss, lay, SessionHooks{})
+	if err != nil {
+		res.Invalid = err.Error()
+		return
+	}
+	res.AddSession(out.S)
+	if !sessionSucceeded(res, out.S, "[table-push "+sc.Arr+"] opts="+strings.Join(sc.Opts, " ")+": ") {
+		if res.Violation != nil {
+			res.Violation.Signature = "push:" + res.Violation.Signature
+			setTape(&sc.Tr, out.S)
+		}
+		return
+	}
+	var wrong []string
+	nskip, nneedless := 0, 0
+	for i := range sc.Entries {
+		e := &sc.Entries[i]
+		s, ok := out.Src[e.Name]
+		if !ok {
+			res.Inconclusive = "source entry missing from snapshot"
+			return
+		}
+		var bp *fstree.Node
+		if b, ok := out.Before[e.Name]; ok {
+			bp = &b
+		}
+		want := model.NeedsTransfer(s, bp, o)
+		a := out.After[e.Name]
+		switch {
+		case want && (a.Type != "f" || a.Sum != s.Sum):
+			nskip++
+			wrong = append(wrong, fmt.Sprintf("%s: dest=%s mtime delta=%ds dest ns=%d: rule says transfer, destination still differs from the source afterwards (%s)", e.Name, e.Dst, e.DeltaSec, e.DstNs, describe(a, true)))
+		case !want && bp != nil && (a.Type != bp.Type || a.Sum != bp.Sum):
+			nneedless++
+			wrong = append(wrong, fmt.Sprintf("%s: dest=%s mtime delta=%ds dest ns=%d: rule says up to date, but the destination content changed", e.Name, e.Dst, e.DeltaSec, e.DstNs))
+		}
+	}
+	sort.Strings(wrong)
+	if len(wrong) > 0 {
+		sig := "push-decision"
+		if nskip > 0 {
+			sig += ":not-transferred"
+		}
+		if nneedless > 0 {
+			sig += ":needlessly-replaced"
+		}
+		res.Violate("wrong-update-decision", sig+":"+receiverSide(sc.Arr), fmt.Sprintf("arr=%s opts=%v: %d wrong outcomes: %v", sc.Arr, sc.Opts, len(wrong), wrong))
+		setTape(&sc.Tr, out.S)
+		return
+	}
+	res.Probe("push_table_entries", len(sc.Entries))
+	res.Probe("push_table_"+sc.Arr, 1)
+	res.NonTrivial = len(sc.Entries) >= 10
+	res.Sample = map[string]any{"mode": "table-push", "arr": sc.Arr, "opts": sc.Opts, "entries": len(sc.Entries)}
 }
 
 func sign(v int64) int {
